@@ -90,23 +90,23 @@ Theorem C11_char_unclosed : forall it tail, valid_item 39 it = true -> item_foll
 Proof. exact char_unclosed. Qed.
 Print Assumptions C11_char_unclosed.
 
-(* constants with several elements ('ab', value implementation-defined): chibicc takes the value
-   of the first element and ends the token at the next single quote - the closing one, provided
-   no later element spells a quote *)
+(* constants with several elements ('ab', 'a\'': value implementation-defined): chibicc takes the
+   value of the first element and finds the closing quote by stepping over every later element,
+   escaped quotes included *)
 Theorem C11_char_multichar : forall it more rest, valid_item 39 it = true ->
   item_follow it (first_byte (spell_items more) 39) = true ->
-  forallb (fun b => negb (b =? 39)) (spell_items more) = true ->
+  forallb (valid_item 39) more = true ->
   read_char_literal (spell_item it ++ spell_items more ++ 39 :: rest) = Ok (item_int it, rest).
 Proof. exact char_multichar. Qed.
 Print Assumptions C11_char_multichar.
 
-(* FINDING: 'a\'' (lexically valid: two c-chars, the second an escaped quote) is cut behind the
-   escaped quote; the real compiler then reports "unclosed char literal" for the quote left over *)
-Theorem C11_char_multichar_escaped_quote_refuted :
-  exists l rest c r, valid_items 39 l = true /\
-    read_char_literal (spell_items l ++ 39 :: rest) = Ok (c, r) /\ r = 39 :: rest.
-Proof. exact char_multichar_escaped_quote_refuted. Qed.
-Print Assumptions C11_char_multichar_escaped_quote_refuted.
+(* the former finding as an instance: 'a\'' followed by ; is one token with value 97 (it was cut
+   behind the escaped quote, and rejected, before commit 6181ddd) *)
+Example C11_char_multichar_escaped_quote :
+  valid_items 39 [IChr 97; IEsc (ESimple SQuote)] = true /\
+  read_char_literal (spell_items [IChr 97; IEsc (ESimple SQuote)] ++ [39; 59]) = Ok (97, [59]).
+Proof. exact char_multichar_escaped_quote. Qed.
+Print Assumptions C11_char_multichar_escaped_quote.
 
 (* ---------------- non-vacuity ---------------- *)
 (* the body  a \n \x41 \1234 é \\ u  read as "" and as u"" ; '\xff' ; U'\xffffffff' ; u'€' *)
@@ -147,9 +147,9 @@ Theorem C11_int_constant : forall k t, valid_iconst k = true ->
 Proof. exact convert_pp_int_spec. Qed.
 Print Assumptions C11_int_constant.
 
-(* acceptance and rejection: for every byte string that starts with a digit and is not of the
-   0x0x family, convert_pp_int accepts it iff the grammar generates it *)
-Theorem C11_int_constant_iff : forall s, isdigit (peek s) = true -> known_bad s = false ->
+(* acceptance and rejection: for every byte string that starts with a digit, convert_pp_int
+   accepts it iff the grammar generates it (no exclusion any more) *)
+Theorem C11_int_constant_iff : forall s, isdigit (peek s) = true ->
   (convert_pp_int s <> None <-> exists k, valid_iconst k = true /\ spell_iconst k = s).
 Proof. exact convert_pp_int_iff. Qed.
 Print Assumptions C11_int_constant_iff.
@@ -159,13 +159,14 @@ Theorem C11_int_rejects_dot : forall t, scan_int (46 :: t) = None.
 Proof. exact scan_int_rejects_dot. Qed.
 Print Assumptions C11_int_rejects_dot.
 
-(* FINDING: the exclusion is real.  0x0x1 is accepted as the int 1 although no integer constant
-   is spelled like that (strtoul(.., 16) skips a second 0x) *)
-Theorem C11_int_constant_iff_refuted :
-  exists s, isdigit (peek s) = true /\ known_bad s = true /\ convert_pp_int s = Some (1, TInt) /\
-            forall k, valid_iconst k = true -> spell_iconst k <> s.
-Proof. exact convert_pp_int_iff_refuted. Qed.
-Print Assumptions C11_int_constant_iff_refuted.
+(* the former finding as instances: 0x0x1, 0X0X1f, 0b0b1 are refused (0x0x1 was the int 1 before
+   commit d1a8518) and are not in the grammar; 0x0b1 is 177, 0x0 is 0 *)
+Example C11_int_doubled_prefix :
+  convert_pp_int [48; 120; 48; 120; 49] = None /\ recognise_iconst [48; 120; 48; 120; 49] = None /\
+  convert_pp_int [48; 88; 48; 88; 49; 102] = None /\ convert_pp_int [48; 98; 48; 98; 49] = None /\
+  convert_pp_int [48; 120; 48; 98; 49] = Some (177, TInt) /\ convert_pp_int [48; 120; 48] = Some (0, TInt).
+Proof. exact convert_pp_int_doubled_prefix. Qed.
+Print Assumptions C11_int_doubled_prefix.
 
 (* a constant beyond 2^64-1 (no type in C11, a constraint violation) is accepted with the
    saturated value ULONG_MAX *)
